@@ -209,10 +209,21 @@ func c08Sync(p vbase.Params, r *vbase.Result) {
 						valid = false // the subject cannot verify it (pairing library defect, vk/blsref.go)
 						r.Obs("bls_library_defect_timeouts", 1)
 					}
-				case kind == 6: // view signature of another replica
+				case kind == 6: // view signature of another replica - alone, or combined behind the sender's own (a timeout carries ONE signature)
 					other := hotstuff.ID(2 + (int(sender)-2+1)%(nn-1))
 					o := c.honestTimeout(other, tv, si, agg)
-					tm.ViewSignature = o.ViewSignature
+					if rng.Bool() || other == sender {
+						tm.ViewSignature = o.ViewSignature
+					} else if comb, err := c.W.M(sender).Auth.Combine(tm.ViewSignature, o.ViewSignature); err == nil {
+						tm.ViewSignature = comb
+						if agg && rng.Bool() {
+							if mc, err := c.W.M(sender).Auth.Combine(tm.MsgSignature, o.MsgSignature); err == nil {
+								tm.MsgSignature = mc
+							}
+						}
+					} else {
+						tm.ViewSignature = o.ViewSignature
+					}
 				case kind == 7: // garbage view signature (signature over another message, or the sender's signature for a view 2^32 / 2^16 later)
 					switch rng.Intn(3) {
 					case 0:
